@@ -66,6 +66,16 @@ type Disk struct {
 	// took effect on the disk, before its result reaches the caller (I/O
 	// completion and continuation are different moments on a real machine).
 	PostGate bool
+	// FailPrefix/FailOps/FailNth: the FailNth-th (1-based) operation of a
+	// kind listed in FailOps (space separated, e.g. "get tx-get list") on a
+	// key with prefix FailPrefix fails once with err-na; FailHits counts it.
+	// Used for faults inside background work (lease restore after a restart)
+	// that no client task owns.
+	FailPrefix string
+	FailOps    string
+	FailNth    int
+	failSeen   int
+	FailHits   int
 	// FailNext makes the next N faultable operations fail with err-na when
 	// no scheduler is in control (single-threaded storage harnesses).
 	FailNext int
@@ -121,6 +131,15 @@ func (d *Disk) gate(ctx context.Context, op, key string, faultable bool) (Fault,
 	} else if d.FailNext > 0 && faultable {
 		d.FailNext--
 		f = FaultErrNA
+	}
+	if d.FailNth > 0 && faultable && f == FaultNone && strings.HasPrefix(key, d.FailPrefix) && strings.Contains(" "+d.FailOps+" ", " "+op+" ") {
+		d.mu.Lock()
+		d.failSeen++
+		if d.failSeen == d.FailNth {
+			f = FaultErrNA
+			d.FailHits++
+		}
+		d.mu.Unlock()
 	}
 	if d.RecordOps {
 		d.mu.Lock()
